@@ -399,6 +399,21 @@ theorem short_write_not_safe (fs0 : FS) (old : Option Bytes) (new part : Bytes) 
 example : safeSaveB (initFS "conf" (some [1, 2, 3])) [9, 8, 7] (repairedTrace "conf.tmp1" "conf" [9, 8]) "conf" = false := by
   decide
 
+/-! ### two savers sharing one temp file -/
+
+/-- when a second writer truncates the temp file that the first writer is about to rename
+    (same temp name in two processes), the rename installs the empty file: whatever happened
+    before, `… openTrunc tmp, rename tmp target` has a crash point with an empty target -/
+theorem shared_tmp_exposes_empty (fs0 : FS) (pre post : List Op) (tmp t : Path) (hne : tmp ≠ t) :
+    some [] ∈ crashTargets fs0 (pre ++ [.openTrunc tmp, .rename tmp t] ++ post) t := by
+  apply mem_crashTargets_of_prefix _ t fs0 (pre ++ [.openTrunc tmp, .rename tmp t])
+  · exact ⟨post, rfl⟩
+  · have : run fs0 (pre ++ [Op.openTrunc tmp, Op.rename tmp t])
+        = step (step (run fs0 pre) (Op.openTrunc tmp)) (Op.rename tmp t) := by
+      simp [run, List.foldl_append]
+    rw [this]
+    simp [views, step, upd, overwrite_empty, Ne.symm hne]
+
 /-- the driver prints `crashGroups`; flattened it is exactly `crashTargets` -/
 theorem crashGroups_flatten (tr : List Op) (t : Path) : ∀ fs : FS,
     (crashGroups fs tr t).flatten = crashTargets fs tr t := by
